@@ -1,4 +1,4 @@
-import Kolibrie.Lemmas.InputIndep
+import Kolibrie.Lemmas.Implement
 /-!
 # C02 — query answers do not depend on the plan the optimizer happens to choose
 
@@ -21,12 +21,20 @@ Proved here, for **all** databases, contexts, plans and solution sequences:
 * hence the bind join, the hash join and the nested-loop join all compute the join of their operands' own
   solutions (`join_algorithms_agree_safe`), and the order of the operands is irrelevant (`join_order_irrelevant`).
 
+* the side condition is decidable (`syntactic_safety_suffices`: FILTER variables ⊆ the variables the filter's input
+  certainly binds), and **whatever assignment of {bind, hash, nested-loop} the cost model makes to the join nodes
+  of a safe logical plan, the physical plan returns the same multiset** (`optimizer_choice_irrelevant`) — the cost
+  model and the statistics are an arbitrary oracle `algs`.
+
 /- FULL (checked by the correspondence run against the algebra on generated inputs; not yet proved):
    theorem optimizer_sound : wellScoped [] pat = true →
-       ∀ algs, exec db (lower .dflt algs pat).1 ctx [[]] ~ sem db ctx pat
-   Missing: the induction over the lowering (`lower`/`lowerGroup` vs `sem`/`semGroup`) that instantiates
-   `exec_input_independent` at every join node, BIND (needs freshness of the target among incoming variables),
-   and the bridge from the decidable `wellScoped` to the semantic side condition of `Safe`. -/
+       ∀ algs, exec db (implement algs (lower .dflt pat)).1 ctx [[]] ~ sem db ctx pat
+   Proved so far: independence from `algs` (this file) on `safeL` plans.  Missing: (i) the induction relating the
+   lowering (`lower`/`lowerGroup`) of the reference plan `implNl` to the algebra (`sem`/`semGroup`) — scans carry the
+   graph scope while the algebra uses the active graph; (ii) BIND (needs freshness of the target among incoming
+   variables; excluded from `safeL`); (iii) sub-selects with inner joins (`finalize_subquery` is not
+   permutation-invariant: LIMIT / first-row-of-group); (iv) greedy scan reordering and the star rewrite of
+   `reorder_logical`/`is_star_query` are covered by `join_order_irrelevant`/`star_is_scan_chain` only pairwise. -/
 -/
 namespace Kolibrie.Props.C02
 open Kolibrie.Engine List
@@ -104,7 +112,23 @@ theorem views_wellformed (db : DB) (d : List (Option Val)) (n : List Val) (a : O
     (⟨View.mk' d n, a⟩ : Ctx).WF ∧ (⟨View.fromDb db, a⟩ : Ctx).WF :=
   ⟨nodup_eraseDups _, nodup_eraseDups _⟩
 
+/-- a decidable sufficient condition for `Safe` -/
+theorem syntactic_safety_suffices (db : DB) (p : Plan) (h : safeSyn p = true) : Safe db p :=
+  safe_of_safeSyn db p h
+
+/-- **the optimizer's choice among the join algorithms never changes the answer**: any two assignments `a`, `b`
+    of algorithms to the join nodes of a safe logical plan give the same multiset, in every database and
+    well-formed dataset view — both equal the all-nested-loop reference plan -/
+theorem optimizer_choice_irrelevant (db : DB) (L : Logical) (h : safeL L = true) (a b : List JoinAlg)
+    (ctx : Ctx) (hc : ctx.WF) :
+    exec db (implement a L).1 ctx [[]] ~ exec db (implement b L).1 ctx [[]] ∧
+    exec db (implement a L).1 ctx [[]] ~ exec db (implNl L) ctx [[]] :=
+  ⟨implement_any_two db L h a b ctx hc, implement_irrelevant db L h a ctx hc⟩
+
 /-! non-vacuity -/
+example : safeL (lower .dflt (.group [.bgp [(.var 0, .const "p", .var 1), (.var 1, .const "q", .var 2)],
+    .union [.group [.bgp [(.var 0, .const "r", .var 3)]], .group [.graph (.var 4) (.bgp [(.var 0, .const "r", .var 3)])]],
+    .filter (.and (.cmp 1 ">" (.const "3")) (.not (.cmp 0 "=" (.var 2))))])) = true := by decide
 example (db : DB) : Safe db (.bindJoin (.scan ⟨.var 0, .const "p", .var 1, .dflt⟩)
     (.union (.scan ⟨.var 0, .const "q", .var 2, .var 3⟩) (.values [1] [[some "a"], [none]]))) := by
   simp [Safe]
